@@ -34,10 +34,10 @@ def run(ctx):
         "every extent vector with all extents in 1..B_N (B=%s) x every in-range coordinate, per (layer, N, M, coordinate type, storage type); "
         "a case is one (configuration, extent vector) explored completely: probe index map via converting ctor and via parameter pack "
         "(in-bounds, injective, single access, value==model), then write/overwrite/read-all on the real array backend under ASan; "
-        "distinct_nontrivial counts distinct (configuration, extent vector) pairs" % B,
+        "plus a large-extent index-map pass (power-of-two boundaries, strongly non-square); distinct_nontrivial counts distinct (configuration, extent vector) pairs" % B,
         {"bounds": {"B_per_N": B}, "builds": [j.name for j in js]})
     ctx.assumptions += ["g++ 12 on x86-64; BMI2 path built with -mbmi2 and executed on this CPU",
-                       "extents above the bound are not explored (no random tail)"]
+                       "beyond the bound only a deterministic set of large extent vectors (65535..2^20+1 in 1-D, up to 1025^2, 33x65x17, 9x17x5x3) is explored, index map only; no random tail"]
 
 
 def replay(ctx, rp):
